@@ -32,8 +32,12 @@ type c02Input struct {
 	Name      string `json:"name,omitempty"`       // the client's ServerName ("" = server.test): another DNS name or an IP literal
 	TimeShift int    `json:"time_shift,omitempty"` // resume: the verifying configuration's clock is this many years later
 	// full handshake: the client's configured clock = the fixed clock + ClockYears years + ClockMin minutes
-	ClockYears int `json:"clock_years,omitempty"`
-	ClockMin   int `json:"clock_min,omitempty"`
+	// resume: FirstVerifies: the session is created by a verifying configuration (default name, roots, clock);
+	// the second, verifying, configuration has the name Name, the roots Roots2 ("" the CA, "other") and the clock TimeShift
+	FirstVerifies bool   `json:"first_verifies,omitempty"`
+	Roots2        string `json:"roots2,omitempty"`
+	ClockYears    int    `json:"clock_years,omitempty"`
+	ClockMin      int    `json:"clock_min,omitempty"`
 }
 
 type c02View struct {
@@ -65,6 +69,10 @@ func c02Chain(name string) (chain [][]byte, sig, enc *tk.Leaf) {
 		return [][]byte{pk.ExpiredSig.DER, pk.SrvEnc.DER}, pk.ExpiredSig, pk.SrvEnc
 	case "mixed-expired-enc":
 		return [][]byte{pk.SrvSig.DER, pk.ExpiredEnc.DER}, pk.SrvSig, pk.ExpiredEnc
+	case "extra-ee": // the genuine pair followed by another end-entity encryption certificate
+		return [][]byte{pk.SrvSig.DER, pk.SrvEnc.DER, pk.Srv2Enc.DER}, pk.SrvSig, pk.SrvEnc
+	case "extra-ca": // the genuine pair followed by the CA certificate
+		return [][]byte{pk.SrvSig.DER, pk.SrvEnc.DER, pk.CA.Cert.Raw}, pk.SrvSig, pk.SrvEnc
 	case "mixed-future-sig":
 		return [][]byte{pk.FutureSig.DER, pk.SrvEnc.DER}, pk.FutureSig, pk.SrvEnc
 	case "mixed-future-enc":
@@ -90,6 +98,10 @@ func c02VerifyName(der []byte, shiftYears int, name string) bool {
 }
 
 func c02VerifyClock(der []byte, shiftYears, shiftMin int, name string) bool {
+	return c02VerifyRoots(der, shiftYears, shiftMin, name, "")
+}
+
+func c02VerifyRoots(der []byte, shiftYears, shiftMin int, name, roots string) bool {
 	if name == "" {
 		name = "server.test"
 	}
@@ -98,7 +110,11 @@ func c02VerifyClock(der []byte, shiftYears, shiftMin int, name string) bool {
 	if err != nil {
 		return false
 	}
-	_, err = c.Verify(x509.VerifyOptions{Roots: pk.CA.Pool, CurrentTime: tk.EPConfig{TimeShiftYears: shiftYears, TimeShiftMin: shiftMin}.Clock(), DNSName: name, Intermediates: x509.NewCertPool()})
+	pool := pk.CA.Pool
+	if roots == "other" {
+		pool = pk.OtherCA.Pool
+	}
+	_, err = c.Verify(x509.VerifyOptions{Roots: pool, CurrentTime: tk.EPConfig{TimeShiftYears: shiftYears, TimeShiftMin: shiftMin}.Clock(), DNSName: name, Intermediates: x509.NewCertPool()})
 	return err == nil
 }
 
@@ -318,6 +334,17 @@ func runC02(p params) error {
 				in = base
 				in.NoEncKey = true
 				c02AddCase(out, "no-enc-private-key", in)
+				// more than two certificates: the key exchange runs against the second one, whatever follows it.
+				// The peer holds the signing key and the key of the THIRD certificate (not of the second) ...
+				in = base
+				in.Chain, in.NoEncKey = "extra-ee", true
+				c02AddCase(out, "third-certificate-key-only", in)
+				// ... or is honest (controls)
+				for _, ch := range []string{"extra-ee", "extra-ca"} {
+					in = base
+					in.Chain = ch
+					c02AddCase(out, "chain-"+ch, in)
+				}
 			}
 			c02Resume(out, c02Input{Stack: st, Suite: su, Chain: "untrusted", SKX: "ok", Fin: "ok", Resume: "cross-config"})
 			c02Resume(out, c02Input{Stack: st, Suite: su, Chain: "wrong-name", SKX: "ok", Fin: "ok", Resume: "cross-config"})
@@ -326,6 +353,12 @@ func runC02(p params) error {
 			c02Resume(out, c02Input{Stack: st, Suite: su, Chain: "expired", SKX: "ok", Fin: "ok", Resume: "cross-config"})
 			c02Resume(out, c02Input{Stack: st, Suite: su, Chain: "mixed-ca-sig", SKX: "ok", Fin: "ok", Resume: "cross-config"})
 			c02Resume(out, c02Input{Stack: st, Suite: su, Chain: "mixed-ca", SKX: "ok", Fin: "ok", Resume: "cross-config"})
+			// the session is created by a VERIFYING configuration; the configuration that offers it verifies too, but
+			// under another name, other roots or a later clock (and, as a control, under the same settings)
+			for _, v := range []c02Input{{Name: "other.test"}, {Roots2: "other"}, {TimeShift: 50}, {}} {
+				v.Stack, v.Suite, v.Chain, v.SKX, v.Fin, v.Resume, v.FirstVerifies = st, su, "srv", "ok", "ok", "cross-config", true
+				c02Resume(out, v)
+			}
 		}
 	}
 	return out.Finish()
